@@ -20,7 +20,7 @@ func outcomes(t *testing.T, bound int, prune bool, body func(out *string)) (map[
 		}
 		k := o + "/" + x.Outcome
 		if len(x.Leaked) > 0 {
-			k += "/leak" 
+			k += "/leak"
 		}
 		res[k]++
 		return true
